@@ -251,10 +251,11 @@ expr_t::parser_t::parse_logic_expr(std::istream& in,
 
       switch (tok.kind) {
       case token_t::EQUAL:
-        if (tflags.has_flags(PARSE_NO_ASSIGN))
+        if (tflags.has_flags(PARSE_NO_ASSIGN)) {
           tok.rewind(in);
-        else
-          kind = op_t::O_EQ;
+          goto exit_loop;
+        }
+        kind = op_t::O_EQ;
         break;
       case token_t::NEQUAL:
         kind = op_t::O_EQ;
